@@ -26,9 +26,24 @@ import (
 
 // verifC18Install must be the first thing every C18 harness does.
 func verifC18Install() {
+	verifC18Failed = false
 	stub.Reset()
 	VerifNewSharedIndexInformer = stub.NewSharedIndexInformer
 	VerifNewLister = stub.NewLister
+}
+
+// verifAssert is rt.Assert for CONCRETE conditions that are checked before
+// further nondeterministic inputs are drawn: a counterexample records the
+// inputs drawn up to the failed assertion only, so the harness must stop
+// before it asks for more (each harness checks verifC18Failed before every
+// draw), otherwise the native replay would run past the recorded inputs.
+var verifC18Failed bool
+
+func verifAssert(cond bool, label string) {
+	rt.Assert(cond, label)
+	if !cond {
+		verifC18Failed = true
+	}
 }
 
 type verifEvent struct {
@@ -97,7 +112,7 @@ func VerifC18_RefCount() {
 	if rt.Bool("bystander-resource") {
 		nOther = 1
 		r, err := f.Resource("v1", "configmaps")
-		rt.Assert(err == nil, "bystander/error")
+		verifAssert(err == nil, "bystander/error")
 		if err != nil || r == nil {
 			return
 		}
@@ -105,40 +120,43 @@ func VerifC18_RefCount() {
 	}
 
 	ri0, err := f.Resource("ex.com/v1", "things")
-	rt.Assert(err == nil, "first-subscribe/error")
-	rt.Assert(ri0 != nil, "first-subscribe/nil-subscription")
+	verifAssert(err == nil, "first-subscribe/error")
+	verifAssert(ri0 != nil, "first-subscribe/nil-subscription")
 	if err != nil || ri0 == nil {
 		return
 	}
 	stub.Settle(1 + nOther)
 	stubs := stub.Stubs()
-	rt.Assert(len(stubs) == 1+nOther, "first-subscribe/informers-created")
+	verifAssert(len(stubs) == 1+nOther, "first-subscribe/informers-created")
 	if len(stubs) != 1+nOther {
 		return
 	}
 	st := stubs[nOther]
 	sri := ri0.sharedResourceInformer
-	rt.Assert(sri.informer == cache.SharedIndexInformer(st), "first-subscribe/informer-not-the-created-one")
-	rt.Assert(st.RunCount() == 1, "first-subscribe/run-count")
-	rt.Assert(!st.Stopped(), "first-subscribe/stopped")
-	rt.Assert(st.HandlerCount() == 1, "first-subscribe/shared-handler-registrations")
-	rt.Assert(st.GVR.Group == "ex.com" && st.GVR.Version == "v1" && st.GVR.Resource == "things", "first-subscribe/lister-gvr")
+	verifAssert(sri.informer == cache.SharedIndexInformer(st), "first-subscribe/informer-not-the-created-one")
+	verifAssert(st.RunCount() == 1, "first-subscribe/run-count")
+	verifAssert(!st.Stopped(), "first-subscribe/stopped")
+	verifAssert(st.HandlerCount() == 1, "first-subscribe/shared-handler-registrations")
+	verifAssert(st.GVR.Group == "ex.com" && st.GVR.Version == "v1" && st.GVR.Resource == "things", "first-subscribe/lister-gvr")
 	key, cnt := verifOnlyKeyOf(f, sri)
-	rt.Assert(cnt == 1, "first-subscribe/not-registered-once")
+	verifAssert(cnt == 1, "first-subscribe/not-registered-once")
 	if cnt != 1 {
 		return
 	}
-	rt.Assert(len(f.sharedInformers) == 1+nOther, "first-subscribe/informer-map-size")
-	rt.Assert(len(f.refCount) == 1+nOther, "first-subscribe/count-map-size")
-	rt.Assert(f.refCount[key] == 1, "first-subscribe/count")
+	verifAssert(len(f.sharedInformers) == 1+nOther, "first-subscribe/informer-map-size")
+	verifAssert(len(f.refCount) == 1+nOther, "first-subscribe/count-map-size")
+	verifAssert(f.refCount[key] == 1, "first-subscribe/count")
 
 	var stO *stub.StubInformer
 	keyO := ""
 	if riO != nil {
 		stO = stubs[0]
 		k, c := verifOnlyKeyOf(f, riO.sharedResourceInformer)
-		rt.Assert(c == 1 && k != key, "bystander/not-registered-separately")
+		verifAssert(c == 1 && k != key, "bystander/not-registered-separately")
 		keyO = k
+		if verifC18Failed {
+			return
+		}
 		m = rt.Int("m")
 		rt.Assume(m >= 1)
 		rt.Assume(m <= 1000000)
@@ -146,6 +164,9 @@ func VerifC18_RefCount() {
 	}
 
 	// inductive pre-state: n subscriptions are open
+	if verifC18Failed {
+		return
+	}
 	n := rt.Int("n")
 	rt.Assume(n >= 1)
 	rt.Assume(n <= 1000000)
@@ -287,7 +308,7 @@ func VerifC18_Handlers() {
 	var ris [3]*ResourceInformer
 	for i := range ris {
 		ri, err := f.Resource("ex.com/v1", "things")
-		rt.Assert(err == nil && ri != nil, "setup/subscribe-error")
+		verifAssert(err == nil && ri != nil, "setup/subscribe-error")
 		if err != nil || ri == nil {
 			return
 		}
@@ -295,12 +316,12 @@ func VerifC18_Handlers() {
 	}
 	stub.Settle(1)
 	stubs := stub.Stubs()
-	rt.Assert(len(stubs) == 1, "setup/informers-created")
+	verifAssert(len(stubs) == 1, "setup/informers-created")
 	if len(stubs) != 1 {
 		return
 	}
 	st := stubs[0]
-	rt.Assert(st.HandlerCount() == 1, "setup/shared-handler-registrations")
+	verifAssert(st.HandlerCount() == 1, "setup/shared-handler-registrations")
 	if st.HandlerCount() != 1 {
 		return
 	}
@@ -308,6 +329,9 @@ func VerifC18_Handlers() {
 	sri := ris[0].sharedResourceInformer
 
 	// what the informer has cached so far
+	if verifC18Failed {
+		return
+	}
 	cached := rt.Choice("cached-objects", 3)
 	names := [2]string{"a", "b"}
 	for j := 0; j < cached; j++ {
@@ -321,21 +345,24 @@ func VerifC18_Handlers() {
 		h := &verifRec{}
 		reg, err := ris[sub].Informer().AddEventHandler(h)
 		_ = reg
-		rt.Assert(err == nil, "add/error")
+		verifAssert(err == nil, "add/error")
 		items := st.Indexer.Items
-		rt.Assert(h.updates == len(items), "add/replay-count")
-		rt.Assert(h.adds == 0 && h.deletes == 0, "add/replay-not-as-update")
+		verifAssert(h.updates == len(items), "add/replay-count")
+		verifAssert(h.adds == 0 && h.deletes == 0, "add/replay-not-as-update")
 		if h.updates == len(items) {
 			for j, o := range items {
-				rt.Assert(h.log[j].kind == 1 && h.log[j].old == interface{}(o) && h.log[j].new == interface{}(o), "add/replay-object")
+				verifAssert(h.log[j].kind == 1 && h.log[j].old == interface{}(o) && h.log[j].new == interface{}(o), "add/replay-object")
 			}
 		}
 		for _, e := range all {
-			rt.Assert(e.h.total() == e.expTotal(), "add/replayed-to-an-existing-handler")
+			verifAssert(e.h.total() == e.expTotal(), "add/replayed-to-an-existing-handler")
 		}
 		all = append(all, &verifEnt{h: h, sub: sub, updates: len(items)})
 	}
 	for sub := 0; sub < 3; sub++ {
+		if verifC18Failed {
+			return
+		}
 		c := rt.Choice(verifC18HandlerTags[sub], 3)
 		for j := 0; j < c; j++ {
 			addTo(sub)
@@ -348,6 +375,9 @@ func VerifC18_Handlers() {
 		}
 	}
 
+	if verifC18Failed {
+		return
+	}
 	victim := -1
 	op := rt.Choice("op", 5)
 	if op != 0 {
@@ -384,8 +414,8 @@ func VerifC18_Handlers() {
 		addTo(victim)
 	}
 	if op == 2 || op == 3 {
-		rt.Assert(!st.Stopped(), "close/stopped-while-others-subscribed")
-		rt.Assert(f.refCount[resourceKey("ex.com/v1", "things")] == 2, "close/count")
+		verifAssert(!st.Stopped(), "close/stopped-while-others-subscribed")
+		verifAssert(f.refCount[resourceKey("ex.com/v1", "things")] == 2, "close/count")
 	}
 
 	// structural: handlers are grouped by the subscription that added them
@@ -396,7 +426,7 @@ func VerifC18_Handlers() {
 				want++
 			}
 		}
-		rt.Assert(len(sri.eventHandlers.handlers[ris[sub].informerWrapper]) == want, "registry/handlers-of-subscription")
+		verifAssert(len(sri.eventHandlers.handlers[ris[sub].informerWrapper]) == want, "registry/handlers-of-subscription")
 	}
 
 	// the informer reports one event of each kind
@@ -405,11 +435,11 @@ func VerifC18_Handlers() {
 			ok := e.h.adds == e.adds && e.h.updates == e.updates && e.h.deletes == e.deletes
 			switch {
 			case e.removed:
-				rt.Assert(ok, "deliver-"+what+"/removed-handler-received-event")
+				verifAssert(ok, "deliver-"+what+"/removed-handler-received-event")
 			case e.sub == victim:
-				rt.Assert(ok, "deliver-"+what+"/handler-of-operated-subscription-missed-or-duplicated")
+				verifAssert(ok, "deliver-"+what+"/handler-of-operated-subscription-missed-or-duplicated")
 			default:
-				rt.Assert(ok, "deliver-"+what+"/handler-of-other-subscription-missed-or-duplicated")
+				verifAssert(ok, "deliver-"+what+"/handler-of-other-subscription-missed-or-duplicated")
 			}
 		}
 	}
@@ -441,7 +471,7 @@ func VerifC18_Handlers() {
 	for _, e := range all {
 		if !e.removed && len(e.h.log) > 0 {
 			l := e.h.log[len(e.h.log)-1]
-			rt.Assert(l.kind == 1 && l.old == interface{}(objC) && l.new == interface{}(objC2), "deliver-update/objects")
+			verifAssert(l.kind == 1 && l.old == interface{}(objC) && l.new == interface{}(objC2), "deliver-update/objects")
 		}
 	}
 	st.Indexer.Items = st.Indexer.Items[:len(st.Indexer.Items)-1]
@@ -451,7 +481,7 @@ func VerifC18_Handlers() {
 	for _, e := range all {
 		if !e.removed && len(e.h.log) > 0 {
 			l := e.h.log[len(e.h.log)-1]
-			rt.Assert(l.kind == 2 && l.old == interface{}(objC2), "deliver-delete/object")
+			verifAssert(l.kind == 2 && l.old == interface{}(objC2), "deliver-delete/object")
 		}
 	}
 
@@ -520,7 +550,7 @@ func VerifC18_Sequences() {
 	f := NewSharedInformerFactory(w.Dyn, 0)
 	steps, nslots := 5, 2
 	if rt.Tier() > 0 {
-		steps, nslots = 7, 3
+		steps, nslots = 6, 3
 	}
 	rs := []*verifRes{
 		{apiVersion: "ex.com/v1", resource: "things", slots: make([]*verifSub, nslots)},
@@ -531,6 +561,9 @@ func VerifC18_Sequences() {
 	nobj := 0
 
 	for step := 0; step < steps; step++ {
+		if verifC18Failed {
+			return
+		}
 		// the operations that make sense in this state (slots of one resource
 		// are interchangeable: subscribe takes the lowest free one; the very
 		// first operation is on resource 0)
@@ -575,7 +608,7 @@ func VerifC18_Sequences() {
 		switch o.kind {
 		case verifOpSubscribe:
 			ri, err := f.Resource(x.apiVersion, x.resource)
-			rt.Assert(err == nil && ri != nil, "seq-subscribe/error")
+			verifAssert(err == nil && ri != nil, "seq-subscribe/error")
 			if err != nil || ri == nil {
 				return
 			}
@@ -595,7 +628,7 @@ func VerifC18_Sequences() {
 			sub := x.slots[o.s]
 			h := &verifRec{}
 			_, err := sub.ri.Informer().AddEventHandler(h)
-			rt.Assert(err == nil, "seq-add/error")
+			verifAssert(err == nil, "seq-add/error")
 			sub.handlers++
 			e := &verifEnt{h: h, res: o.r, sub: o.s, gen: sub.gen, owner: sub}
 			// replay of everything the running informer has cached
@@ -631,12 +664,12 @@ func VerifC18_Sequences() {
 			// (Close only gives up the subscription)
 		case verifOpDeliver:
 			cur := verifStubsOf(x.resource)
-			rt.Assert(len(cur) == x.gen, "seq-deliver/generations")
+			verifAssert(len(cur) == x.gen, "seq-deliver/generations")
 			if len(cur) != x.gen {
 				return
 			}
 			st := cur[x.gen-1]
-			rt.Assert(st.HandlerCount() == 1, "seq-deliver/shared-handler-registrations")
+			verifAssert(st.HandlerCount() == 1, "seq-deliver/shared-handler-registrations")
 			if st.HandlerCount() != 1 {
 				return
 			}
@@ -678,46 +711,46 @@ func VerifC18_Sequences() {
 		for _, x := range rs {
 			key := resourceKey(x.apiVersion, x.resource)
 			cur := verifStubsOf(x.resource)
-			rt.Assert(len(cur) == x.gen, "seq/informers-started-differs-from-generations")
+			verifAssert(len(cur) == x.gen, "seq/informers-started-differs-from-generations")
 			for g, s := range cur {
-				rt.Assert(s.RunCount() == 1, "seq/informer-not-run-exactly-once")
+				verifAssert(s.RunCount() == 1, "seq/informer-not-run-exactly-once")
 				if g < len(cur)-1 {
-					rt.Assert(s.Stopped(), "seq/superseded-informer-still-running")
+					verifAssert(s.Stopped(), "seq/superseded-informer-still-running")
 				}
 			}
 			sri, registered := f.sharedInformers[key]
 			cnt, counted := f.refCount[key]
 			if x.open > 0 {
 				running++
-				rt.Assert(registered, "seq/subscribed-but-not-registered")
-				rt.Assert(counted && cnt == x.open, "seq/count-differs-from-open-subscriptions")
+				verifAssert(registered, "seq/subscribed-but-not-registered")
+				verifAssert(counted && cnt == x.open, "seq/count-differs-from-open-subscriptions")
 				if len(cur) == x.gen && x.gen > 0 {
-					rt.Assert(!cur[x.gen-1].Stopped(), "seq/stopped-while-subscribed")
+					verifAssert(!cur[x.gen-1].Stopped(), "seq/stopped-while-subscribed")
 					if registered {
-						rt.Assert(sri.informer == cache.SharedIndexInformer(cur[x.gen-1]), "seq/registered-informer-is-not-the-running-one")
+						verifAssert(sri.informer == cache.SharedIndexInformer(cur[x.gen-1]), "seq/registered-informer-is-not-the-running-one")
 					}
 				}
 				for _, sub := range x.slots {
 					if sub != nil && registered {
-						rt.Assert(sub.ri.sharedResourceInformer == sri, "seq/subscription-on-a-stale-informer")
+						verifAssert(sub.ri.sharedResourceInformer == sri, "seq/subscription-on-a-stale-informer")
 					}
 				}
 			} else {
-				rt.Assert(!registered, "seq/registered-without-subscribers")
-				rt.Assert(!counted, "seq/counted-without-subscribers")
+				verifAssert(!registered, "seq/registered-without-subscribers")
+				verifAssert(!counted, "seq/counted-without-subscribers")
 				if len(cur) == x.gen && x.gen > 0 {
-					rt.Assert(cur[x.gen-1].Stopped(), "seq/running-without-subscribers")
+					verifAssert(cur[x.gen-1].Stopped(), "seq/running-without-subscribers")
 				}
 			}
 		}
-		rt.Assert(len(f.sharedInformers) == running, "seq/informer-map-size")
-		rt.Assert(len(f.refCount) == running, "seq/count-map-size")
+		verifAssert(len(f.sharedInformers) == running, "seq/informer-map-size")
+		verifAssert(len(f.refCount) == running, "seq/count-map-size")
 		for _, e := range all {
 			ok := e.h.adds == e.adds && e.h.updates == e.updates && e.h.deletes == e.deletes
 			if e.removed {
-				rt.Assert(ok, "seq/removed-handler-received-event")
+				verifAssert(ok, "seq/removed-handler-received-event")
 			} else {
-				rt.Assert(ok, "seq/handler-deliveries-differ")
+				verifAssert(ok, "seq/handler-deliveries-differ")
 			}
 		}
 	}
